@@ -23,6 +23,8 @@ impl KpCase {
         let mut f = vec![kind.to_string(), self.opts(), crate::wire::escape(&self.op), self.files.len().to_string()];
         for file in &self.files {
             f.push(match file {
+                Some(t) if t == "\u{1}DIRECTORY" => "DIRECTORY".to_string(),
+                Some(t) if t.starts_with("\u{1}BROKEN:") => format!("BROKEN:{}", crate::wire::escape(&t["\u{1}BROKEN:".len()..])),
                 Some(t) => crate::wire::escape(t),
                 None => "UNREADABLE".to_string(),
             });
@@ -133,6 +135,18 @@ pub fn generate(g: &mut Gen, thorough: bool) {
         KpCase { inv: true, rt: true, z: None, t: None, d: Some(3), dim: Some(4), op: "addone".into(), files: vec![Some("1 2 3 4\n5 6 7 8\n".into())] },
         KpCase { inv: false, rt: false, z: Some(5.0), t: Some(2020.0), d: Some(1), dim: Some(4), op: "noop".into(), files: vec![Some("1 2\n3 4 9 1999\n".into())] },
     ];
+    // files that open but cannot be read to the end: an error message and a non-zero status
+    let unreadable = [
+        KpCase { inv: false, rt: false, z: None, t: None, d: Some(2), dim: Some(2), op: "addone".into(), files: vec![Some("\u{1}DIRECTORY".into())] },
+        KpCase { inv: false, rt: false, z: None, t: None, d: Some(2), dim: Some(2), op: "addone".into(), files: vec![Some("1 2\n".into()), Some("\u{1}DIRECTORY".into()), Some("3 4\n".into())] },
+        KpCase { inv: false, rt: false, z: None, t: None, d: Some(2), dim: Some(2), op: "addone".into(), files: vec![Some("\u{1}BROKEN:1 2\n3 4\n".into())] },
+        KpCase { inv: false, rt: false, z: None, t: None, d: Some(2), dim: Some(2), op: "addone".into(), files: vec![Some("\u{1}BROKEN:".into()), Some("5 6\n".into())] },
+        KpCase { inv: true, rt: false, z: None, t: None, d: Some(3), dim: None, op: "utm zone=32".into(), files: vec![Some("500000 6000000\n".into()), Some("\u{1}BROKEN:# comment\n\n600000 6100000\n".into())] },
+    ];
+    for c in unreadable {
+        g.push(c.line("KP"), "unreadable", true);
+        g.push(c.line("S_C20"), "oracle-unreadable", true);
+    }
     for c in fixed {
         // (the model has no `curvature`: that case is for the oracle only)
         if !c.op.starts_with("curvature") {
